@@ -70,7 +70,7 @@ OUTER_BINDINGS = [("none", ""), ("outer-class", "class X:\n    class N: ...")]
 # reference forms: (label, expression text, needs-binding-of)
 REFS = [("X", "X"), ("X.N", "X.N")]
 DOTTED_REFS = [("import pkg.a", "pkg.a.X"), ("import pkg.a", "pkg.a.X.N"), ("import ext", "ext.Y"), ("import pkg.sub.b", "pkg.sub.b.X")]
-SITES = ["mod-annotation", "mod-value", "base", "decorator", "decorator-callable", "class-annotation", "method-annotation", "method-default", "nested-class-annotation", "init-self-value"]
+SITES = ["mod-annotation", "mod-value", "base", "base-shadowed", "decorator", "decorator-callable", "class-annotation", "method-annotation", "method-default", "nested-class-annotation", "init-self-value"]
 # imports that bind a *module* (own submodule, sibling, parent's other child), with and without renaming: (positions, statement, reference)
 _INIT, _A, _SUBI, _B = "pkg/__init__.py", "pkg/a.py", "pkg/sub/__init__.py", "pkg/sub/b.py"
 MODULE_IMPORTS = [
@@ -107,8 +107,17 @@ def all_cases(tier):
                             continue
                         if cb[0] != "none" and site in ("mod-annotation", "mod-value", "base", "decorator", "decorator-callable"):
                             continue
+                        if site == "base-shadowed" and cb[0] == "none":
+                            continue  # (the class whose header holds the reference binds the same name in its own body: the header belongs to the enclosing scope)
                         for ref in REFS:
                             yield (pos, tuple(b[0] for b in seq), cb[0], ob[0], site, ref[1])
+        # the name bound TWICE at module level, with something between the two bindings that makes the visitor resolve it while it visits (an annotated
+        # class attribute: the ClassVar test reads the annotation's path): sites written after the second binding are bound by the second one
+        for b1 in legal:
+            for b2 in legal:
+                if b1[0] != "none" and b2[0] != "none" and b1[0] != b2[0]:
+                    for site in ("mod-annotation", "decorator-callable", "method-annotation"):
+                        yield (pos, (b1[0], "stmt:class Early:\n    e: X = None", b2[0]), "none", "none", site, "X")
         for imp, expr in DOTTED_REFS:
             for site in SITES:
                 yield (pos, ("stmt:" + imp,), "none", "none", site, expr)
@@ -153,6 +162,9 @@ def build_module(case):
         lines.append(f"v = {ref}")
     elif site == "base":
         lines.append(f"class D({ref}): ...")
+    elif site == "base-shadowed":
+        lines.append(f"class D({ref}):")
+        lines.append(ind(cbs, 1) if cbs else "    pass")
     elif site == "decorator":
         lines.append(f"def deco_passthrough(c):\n    return lambda f: f\n@deco_passthrough({ref})\ndef h(): ...")
     elif site == "decorator-callable":
@@ -215,7 +227,7 @@ def cpython_eval(case, root):
                 o = mod.__annotations__["v"]
             elif site == "mod-value":
                 o = mod.v
-            elif site == "base":
+            elif site in ("base", "base-shadowed"):
                 o = mod.D.__bases__[0]
             elif site in ("decorator", "decorator-callable"):
                 return None  # evaluated like a module-level value; judged through the mod-value twin
@@ -239,17 +251,26 @@ def cpython_eval(case, root):
     return _path_of(o)
 
 
+_RELOAD = False
+
+
 def griffe_eval(griffe, case, root):
     pos, mbs, cb, ob, site, ref = case
     loader = griffe.GriffeLoader(search_paths=[root], allow_inspection=False)
     pkg = loader.load("pkg")
     loader.load("ext")
     mod = loader.modules_collection[POSITIONS[pos]]
+    if _RELOAD:
+        # the same question put to the tree rebuilt from its own JSON (another way of entering the library: names must bind the same)
+        pkg2 = griffe.Module.from_json(pkg.as_json())
+        mod = pkg2
+        for part in POSITIONS[pos].split(".")[1:]:
+            mod = mod.members[part]
     if site in ("mod-annotation",):
         expr = mod.members["v"].annotation
     elif site == "mod-value":
         expr = mod.members["v"].value
-    elif site == "base":
+    elif site in ("base", "base-shadowed"):
         expr = mod.members["D"].bases[0]
     elif site == "decorator":
         expr = mod.members["h"].decorators[0].value.arguments[0]
@@ -293,6 +314,18 @@ def run_case(griffe, acc, case):
             acc.violation(f"raise/{type(e).__name__}/{site}", f"resolution raised {e!r}", cd, None, size=len(src))
             acc.case(cd, outcome="raise")
             return
+        if site not in ("init-self-value", "decorator-callable"):
+            # (init-self-value: names of __init__ parameters in instance-attribute values are C08's known finding)
+            global _RELOAD
+            _RELOAD = True
+            try:
+                got2 = griffe_eval(griffe, case, d)[0]
+            except Exception as e:  # noqa: BLE001
+                got2 = f"RAISE {type(e).__name__}"
+            finally:
+                _RELOAD = False
+            if got2 != got:
+                acc.violation(f"reloaded/{site}", f"{POSITIONS[pos]}: {ref!r} at {site} resolves to {got!r} in the loaded tree and to {got2!r} in the tree rebuilt from its JSON", cd, None, size=len(src))
     bound = any(b != "none" for b in mbs) or cb != "none" or ob != "none"
     binding_form = "+".join(b for b in mbs if b != "none") or "-"
     scopes = f"module:{binding_form}/class:{cb}/outer:{ob}"
